@@ -145,6 +145,26 @@ func (Scenario) Generate(rng *rand.Rand, focus, tier string) kernel.Plan {
 			add("block", on, 6, rng.Int63(), 0)
 		}
 	}
+	if (focus == "C01" || focus == "C13" || focus == "C19") && kernel.Chance(rng, 0.15) || kernel.Chance(rng, 0.02) {
+		// prelude: more than ten packets on one path (decimal sequences stop sorting numerically), delivered,
+		// then the receiving chain restarts from its export and old receives are replayed
+		from := rng.Int63n(nc)
+		dsel := rng.Int63n(nc - 1)
+		for k := 0; k < 11+int(rng.Int63n(3)); k++ {
+			add("send", from, rng.Int63n(4), dsel, 1, rng.Int63n(3), rng.Int63n(2), 0, rng.Int63n(6))
+		}
+		for k := 0; k < 3; k++ {
+			add("pump", 0)
+		}
+		for c := int64(0); c < nc; c++ {
+			add("xrestart", c)
+			add("block", c, 2, rng.Int63(), 0)
+		}
+		for k := 0; k < 6; k++ {
+			add("replay", rng.Int63n(nr), rng.Int63n(64), 1, rng.Int63n(3))
+			add("pump", 0)
+		}
+	}
 	for i := 0; i < n; i++ {
 		x := rng.Intn(total)
 		var k string
